@@ -612,6 +612,8 @@ type c14Run struct {
 	class   string
 	detail  string
 	elapsed time.Duration
+	limit   time.Duration // 0 = the default limit per command
+	label   string        // what kind of file ("" = fault matrix)
 }
 
 var c14GoPanic = regexp.MustCompile(`(?m)^(panic:|fatal error:|goroutine \d+ \[|\[signal SIG)`)
@@ -797,6 +799,10 @@ func init() {
 				g := c14Base(r, now)
 				c14Apply(r, g, mask)
 				text = g.Text()
+				// the records around the people: a header variant in rotation, other records at random
+				hv := fi % len(c14HeaderNames)
+				text = c14WithRecords(text, c14Header(r, hv), c14OtherRecords(r))
+				c.Count("header=" + c14HeaderNames[hv])
 			}
 			c.Count("faults=" + strconv.Itoa(c14popcount(mask)))
 			for i := 0; i < c14NFaults; i++ {
@@ -1052,6 +1058,48 @@ func init() {
 			c.Eval()
 		}
 
+		// ---- a few LARGE files: more than 1000 individuals / families / places / sources
+		{
+			type big struct{ n, fam, places, sour int }
+			sizes := []big{{1001, 500, 300, 10}}
+			wide := []big{{350, 1001, 1001, 1001}}
+			if !c.Quick() {
+				sizes = append(sizes, big{1025, 1100, 1030, 1001}, big{2050, 1030, 2050, 30})
+			}
+			emptyFile := filepath.Join(tmp, "empty-tree.ged")
+			os.WriteFile(emptyFile, []byte("0 HEAD\n1 CHAR UTF-8\n0 TRLR\n"), 0o644)
+			addBig := func(label, kind, text, outDir string, args ...string) {
+				runs = append(runs, &c14Run{file: args[0], text: "(generated: " + label + ")", kind: kind, args: args[1:], outDir: outDir,
+					limit: 180 * time.Second, label: label})
+			}
+			for _, sz := range append(sizes, wide...) {
+				label := fmt.Sprintf("large file: %d individuals, %d families, %d places, %d sources", sz.n, sz.fam, sz.places, sz.sour)
+				file := filepath.Join(tmp, fmt.Sprintf("big-%d-%d.ged", sz.n, sz.fam))
+				renum := filepath.Join(tmp, fmt.Sprintf("big-%d-%d-renumbered.ged", sz.n, sz.fam))
+				os.WriteFile(file, []byte(c14Large(sz.n, sz.fam, sz.places, sz.sour, "I")), 0o644)
+				os.WriteFile(renum, []byte(c14Large(sz.n, sz.fam, sz.places, sz.sour, "P")), 0o644)
+				c.Count(label)
+				out := func(s string) string { return filepath.Join(tmp, fmt.Sprintf("big-%d-%d-%s", sz.n, sz.fam, s)) }
+				addBig(label, "warnings", "", "", file, "warnings", file)
+				addBig(label, "query", "", "", file, "query", "-gedcom", file, "-format", "json", ".Individuals | Length")
+				addBig(label+" merged with an empty tree", "query", "", "", file, "query", "-gedcom", file, "-gedcom", emptyFile, "-format", "gedcom",
+					"MergeDocumentsAndIndividuals(Document1, Document2)")
+				if sz.n > 1000 {
+					addBig(label+" vs an empty tree", "diff", "", out("d1.html"), file, "diff", "-left-gedcom", file, "-right-gedcom", emptyFile, "-output", out("d1.html"))
+					addBig(label+" vs itself", "diff", "", out("d2.html"), file, "diff", "-left-gedcom", file, "-right-gedcom", file, "-output", out("d2.html"), "-jobs", "8")
+					addBig(label+" vs a renumbered copy", "diff", "", out("d3.html"), file, "diff", "-left-gedcom", emptyFile, "-right-gedcom", renum, "-output", out("d3.html"), "-show", "only-matches")
+					if !c.Quick() {
+						addBig(label+" vs a renumbered copy", "diff", "", out("d4.html"), file, "diff", "-left-gedcom", file, "-right-gedcom", renum, "-output", out("d4.html"), "-jobs", "8",
+							"-sort", "highest-similarity")
+						addBig(label, "publish", "", out("pub"), file, "publish", "-gedcom", file, "-output-dir", out("pub"), "-living", "placeholder", "-jobs", "8")
+					}
+				} else {
+					addBig(label, "publish", "", out("pub"), file, "publish", "-gedcom", file, "-output-dir", out("pub"), "-living", "hide", "-jobs", "8")
+					addBig(label+" vs itself", "diff", "", out("d2.html"), file, "diff", "-left-gedcom", file, "-right-gedcom", file, "-output", out("d2.html"), "-jobs", "8")
+				}
+			}
+		}
+
 		// ---- run the commands in parallel child processes
 		nw := runtime.NumCPU()
 		if nw > 16 {
@@ -1064,7 +1112,11 @@ func init() {
 			go func() {
 				defer wg.Done()
 				for run := range jobs {
-					c14Exec(bin, run, 30*time.Second)
+					limit := run.limit
+					if limit == 0 {
+						limit = 30 * time.Second
+					}
+					c14Exec(bin, run, limit)
 				}
 			}()
 		}
@@ -1089,7 +1141,12 @@ func init() {
 			if run.class == "error" {
 				c.Count("error:" + run.kind + ": " + c14ErrClass(run.detail))
 			}
-			c.Nontrivial(c14MaskNames(run.mask) + "/" + variant + "/" + run.class)
+			faults := c14MaskNames(run.mask)
+			if run.label != "" {
+				faults = run.label
+				c.Count("large-file run: " + run.kind + " -> " + run.class)
+			}
+			c.Nontrivial(faults + "/" + variant + "/" + run.class)
 			cls := "ok"
 			switch run.class {
 			case "panic", "fatal", "timeout":
@@ -1100,7 +1157,7 @@ func init() {
 					site = site[i+3:]
 				}
 				c.Oracle("", fmt.Sprintf("gedcom %s ends in a %s on a decodable file (at %s)", variant, run.class, site),
-					map[string]interface{}{"faults": c14MaskNames(run.mask), "argv": strings.Join(argv, " "), "file": run.text,
+					map[string]interface{}{"faults": faults, "argv": strings.Join(argv, " "), "file": run.text,
 						"other_file_of_diff_or_merge": okText},
 					run.class+": "+run.detail, "output or an error message")
 			}
